@@ -125,9 +125,17 @@ class XWork:
                 return {'kind': 'xwork', 'driver': pid, 'dcls': cls, 'dcase': case}
         return None
 
+    def gen_suite(self, files):
+        return {'kind': 'xwork', 'driver': 'suite', 'files': list(files)}
+
     def run(self, case, out):
         """Run the driver's case; its verdict and its exceptions are not the host's business."""
-        from vlib.harness import Out
+        from vlib.harness import Out, repo_path
+        if case['driver'] == 'suite':
+            rc = run_suite_files(repo_path(), case['files'])
+            out.count('xwork_suite_runs')
+            out.count('xwork_suite_exit_%d' % rc)
+            return
         d = self.driver(case['driver'])
         d.rec.new_case()
         try:
